@@ -31,6 +31,9 @@ pub enum DocElem {
     OptU32,
     Bytes,
     Nested,
+    /// `()`: a zero-sized element type (JSON null)
+    #[serde(alias = "Zst")]
+    Unit,
 }
 
 #[derive(Serialize, Deserialize, Clone, Debug, PartialEq)]
@@ -44,6 +47,9 @@ pub struct Trip {
     /// Some(margins): serialise a (strided) view / mutable view of a bigger u32 parent
     pub view: Option<([u8; 4], bool)>,
     pub transport: Transport,
+    /// overrides (cols, rows): a few very large arrays (size-dependent fast paths)
+    #[serde(default)]
+    pub big: Option<(u16, u16)>,
 }
 
 fn decode<T: DeserializeOwned>(text: &str, tr: Transport) -> Result<Result<TooDee<T>, String>, String> {
@@ -93,7 +99,10 @@ fn build<T: Clone>(cols: usize, rows: usize, f: impl Fn(usize) -> T) -> TooDee<T
 }
 
 pub fn exec_trip(k: &Trip, ctx: &mut Ctx) -> Verdict {
-    let (cols, rows) = (k.cols as usize, k.rows as usize);
+    let (cols, rows) = match k.big {
+        Some((c, r)) => (c as usize, r as usize),
+        None => (k.cols as usize, k.rows as usize),
+    };
     let int = |i: usize| if k.ints.is_empty() { i as i64 } else { k.ints[i % k.ints.len()].wrapping_add((i / k.ints.len()) as i64) };
     let st = |i: usize| if k.strs.is_empty() { format!("s{}", i) } else { format!("{}{}", k.strs[i % k.strs.len()], if i >= k.strs.len() { i.to_string() } else { String::new() }) };
     if let Some((m, mutable)) = k.view {
@@ -132,6 +141,7 @@ pub fn exec_trip(k: &Trip, ctx: &mut Ctx) -> Verdict {
         DocElem::OptU32 => roundtrip(&build(cols, rows, |i| if int(i) % 3 == 0 { None } else { Some(int(i) as u32) }), k.transport)?,
         DocElem::Bytes => roundtrip(&build(cols, rows, |i| st(i).into_bytes()), k.transport)?,
         DocElem::Nested => roundtrip(&build(cols, rows, |i| build((int(i).unsigned_abs() % 3) as usize, (i % 3) as usize, |j| (i * 10 + j) as u32)), k.transport)?,
+        DocElem::Unit => roundtrip(&build(cols, rows, |_| ()), k.transport)?,
     }
     let nonempty = cols > 0 && rows > 0;
     if nonempty && matches!(k.transport, Transport::Reader | Transport::Value) {
@@ -168,23 +178,36 @@ impl Prop for C18 {
     type Case = Trip;
     const ID: &'static str = "C18";
     fn rule() -> &'static str {
-        "round trip: arrays of shapes (0,0), 1xN, Nx1 and up to 6x6 with element types u32, i64, String (arbitrary Unicode incl. quotes, backslashes, control characters, surrogate-adjacent code points), Option<u32>, Vec<u8>, nested TooDee<u32>, serialised and deserialised through to_string/from_str, to_vec/from_slice, to_writer/from_reader and to_value/from_value; views and mutable views (strided windows of u32 parents) must round-trip to TooDee::from(view). Exhaustive over all shapes (0..=6)^2 x 6 element types x 4 transports and all windows of a 4x4 parent, random cell contents. Oracle: decoded == original (dimensions and every cell). No floats (NaN / precision would make the oracle flaky). Non-trivial = a non-empty array through from_reader / from_value, or an empty array, or a strided view, or a String needing escapes. Distinct = distinct case."
+        "round trip: arrays of shapes (0,0), 1xN, Nx1 and up to 6x6 with element types u32, i64, (), String (arbitrary Unicode incl. quotes, backslashes, control characters, surrogate-adjacent code points), Option<u32>, Vec<u8>, nested TooDee<u32>, serialised and deserialised through to_string/from_str, to_vec/from_slice, to_writer/from_reader and to_value/from_value; views and mutable views (strided windows of u32 parents) must round-trip to TooDee::from(view). Exhaustive over all shapes (0..=6)^2 x 6 element types x 4 transports and all windows of a 4x4 parent, random cell contents. Oracle: decoded == original (dimensions and every cell). No floats (NaN / precision would make the oracle flaky). Non-trivial = a non-empty array through from_reader / from_value, or an empty array, or a strided view, or a String needing escapes. Distinct = distinct case."
     }
     fn bound(_t: Tier) -> String {
         "all shapes (0..=6)^2 x 6 element types x 4 transports; all window embeddings with margins in {0,1,2}^4 of shapes (0..=3)^2 x view/view_mut x 4 transports".into()
     }
     fn enumerate(_tier: Tier, emit: &mut dyn FnMut(Trip)) {
-        for elem in [DocElem::U32, DocElem::I64, DocElem::Str, DocElem::OptU32, DocElem::Bytes, DocElem::Nested] {
+        for elem in [DocElem::U32, DocElem::I64, DocElem::Str, DocElem::OptU32, DocElem::Bytes, DocElem::Nested, DocElem::Unit] {
             for tr in [Transport::Str, Transport::Slice, Transport::Reader, Transport::Value] {
                 for cols in 0u8..=6 {
                     for rows in 0u8..=6 {
                         if (cols == 0) != (rows == 0) {
                             continue;
                         }
-                        emit(Trip { elem, cols, rows, ints: vec![0, -1, 7, i64::MAX, i64::MIN, 4294967295, 3], strs: vec!["".into(), "a\"b".into(), "\\".into(), "\u{0}\n".into(), "é😀".into()], view: None, transport: tr });
+                        emit(Trip { elem, cols, rows, ints: vec![0, -1, 7, i64::MAX, i64::MIN, 4294967295, 3], strs: vec!["".into(), "a\"b".into(), "\\".into(), "\u{0}\n".into(), "é😀".into()], view: None, transport: tr, big: None });
                     }
                 }
             }
+        }
+        // a few large arrays and views around power-of-two cell counts (size-dependent fast paths)
+        for (i, (c, r)) in [(600u16, 450u16), (520, 505), (257, 256), (1030, 64)].into_iter().enumerate() {
+            let tr = [Transport::Str, Transport::Slice, Transport::Reader, Transport::Value][i % 4];
+            emit(Trip { elem: DocElem::U32, cols: 1, rows: 1, ints: vec![1, 2, 3], strs: vec![], view: None, transport: tr, big: Some((c, r)) });
+            emit(Trip { elem: DocElem::U32, cols: 1, rows: 1, ints: vec![4, 5, 6, 7], strs: vec![], view: Some(([0, 0, 0, 0], false)), transport: [Transport::Reader, Transport::Str, Transport::Slice, Transport::Value][i % 4], big: Some((c, r)) });
+            emit(Trip { elem: DocElem::U32, cols: 1, rows: 1, ints: vec![9, 8], strs: vec![], view: Some(([1, 0, 0, 1], true)), transport: tr, big: Some((c - 1, r)) });
+        }
+        for (i, (cols, rows)) in [(255u8, 255u8), (255, 129), (128, 64), (65, 64)].into_iter().enumerate() {
+            let tr = [Transport::Str, Transport::Slice, Transport::Reader, Transport::Value][i % 4];
+            emit(Trip { elem: DocElem::U32, cols, rows, ints: vec![1, 2, 3], strs: vec![], view: None, transport: tr, big: None });
+            emit(Trip { elem: DocElem::U32, cols, rows, ints: vec![4, 5, 6, 7], strs: vec![], view: Some(([0, 0, 0, 0], false)), transport: [Transport::Reader, Transport::Str, Transport::Slice, Transport::Value][i % 4], big: None });
+            emit(Trip { elem: DocElem::U32, cols: cols - 1, rows, ints: vec![9, 8], strs: vec![], view: Some(([1, 0, 0, 1], true)), transport: tr, big: None });
         }
         for tr in [Transport::Str, Transport::Slice, Transport::Reader, Transport::Value] {
             for mutable in [false, true] {
@@ -194,7 +217,7 @@ impl Prop for C18 {
                             for t in 0u8..3 {
                                 for r in 0u8..3 {
                                     for b in 0u8..2 {
-                                        emit(Trip { elem: DocElem::U32, cols, rows, ints: vec![5, 9, 100, 7, 3, 1, 8], strs: vec![], view: Some(([l, t, r, b], mutable)), transport: tr });
+                                        emit(Trip { elem: DocElem::U32, cols, rows, ints: vec![5, 9, 100, 7, 3, 1, 8], strs: vec![], view: Some(([l, t, r, b], mutable)), transport: tr, big: None });
                                     }
                                 }
                             }
@@ -206,17 +229,21 @@ impl Prop for C18 {
     }
     fn strategy(_t: Tier) -> BoxedStrategy<Trip> {
         let shape = prop_oneof![6 => (0u8..=6, 0u8..=6), 1 => (1u8..=1, 1u8..=20), 1 => (1u8..=20, 1u8..=1)];
-        let elem = prop_oneof![1 => Just(DocElem::U32), 1 => Just(DocElem::I64), 3 => Just(DocElem::Str), 1 => Just(DocElem::OptU32), 1 => Just(DocElem::Bytes), 1 => Just(DocElem::Nested)];
+        let elem = prop_oneof![1 => Just(DocElem::U32), 1 => Just(DocElem::I64), 3 => Just(DocElem::Str), 1 => Just(DocElem::OptU32), 1 => Just(DocElem::Bytes), 1 => Just(DocElem::Nested), 1 => Just(DocElem::Unit)];
         (elem, shape, prop::collection::vec(any::<i64>(), 0..8), prop::collection::vec(nasty_string(), 0..6), prop::option::weighted(0.3, (small_margin(), any::<bool>())), transport())
             .prop_map(|(elem, (cols, rows), ints, strs, view, transport)| {
                 let (cols, rows) = if view.is_none() && (cols == 0 || rows == 0) { (0, 0) } else { (cols, rows) };
-                Trip { elem, cols, rows, ints, strs, view, transport }
+                Trip { elem, cols, rows, ints, strs, view, transport, big: None }
             })
             .boxed()
     }
     fn fuzz_sanitize(k: &mut Trip) -> bool {
-        k.cols %= 8;
-        k.rows %= 8;
+        if k.cols > 200 && k.rows > 200 {
+            // keep the occasional very large array
+        } else {
+            k.cols %= 8;
+            k.rows %= 8;
+        }
         if let Some((m, _)) = &mut k.view {
             m.iter_mut().for_each(|x| *x %= 4);
         } else if k.cols == 0 || k.rows == 0 {
@@ -389,6 +416,7 @@ pub fn exec_doc(k: &Doc, ctx: &mut Ctx) -> Verdict {
     let fr = fields.as_deref();
     match k.elem {
         DocElem::U32 | DocElem::I64 | DocElem::Bytes | DocElem::Nested => check_doc::<u32>(&text, k.transport, fr, ctx)?,
+        DocElem::Unit => check_doc::<()>(&text, k.transport, fr, ctx)?,
         DocElem::Str => check_doc::<String>(&text, k.transport, fr, ctx)?,
         DocElem::OptU32 => check_doc::<Option<u32>>(&text, k.transport, fr, ctx)?,
     }
@@ -421,8 +449,29 @@ pub fn exec_doc(k: &Doc, ctx: &mut Ctx) -> Verdict {
     Ok(())
 }
 
+/// (a, b, k) with a * b == 2^64 + k exactly: dimension pairs whose product wraps to k
+fn wrap_pair(r0: u16, r1: u16) -> (u64, u64, usize) {
+    const SMALL: [u128; 40] = [2, 3, 4, 5, 6, 7, 8, 9, 11, 12, 13, 16, 17, 24, 31, 32, 33, 48, 63, 64, 65, 97, 127, 128, 129, 255, 256, 257, 641, 1000, 1023, 1024, 1025, 4099, 65535, 65536, 65537, 274177, 1048575, 4294967296];
+    let mut k = (r0 % 48) as u128;
+    let mut i = r1 as usize % SMALL.len();
+    for _ in 0..(48 * SMALL.len()) {
+        let n = (1u128 << 64) + k;
+        let a = SMALL[i];
+        if n % a == 0 && n / a < (1u128 << 64) {
+            return (a as u64, (n / a) as u64, k as usize);
+        }
+        i += 1;
+        if i == SMALL.len() {
+            i = 0;
+            k = (k + 1) % 48;
+        }
+    }
+    (1 << 32, 1 << 32, 0)
+}
+
 fn elem_val(elem: DocElem) -> BoxedStrategy<Val> {
     match elem {
+        DocElem::Unit => Just(Val::Null).boxed(),
         DocElem::Str => nasty_string().prop_map(Val::S).boxed(),
         DocElem::OptU32 => prop_oneof![3 => (0u64..1000).prop_map(Val::U), 1 => Just(Val::Null)].boxed(),
         _ => prop_oneof![5 => (0u64..1000).prop_map(Val::U), 1 => Just(Val::U(u32::MAX as u64))].boxed(),
@@ -460,7 +509,7 @@ fn dim_pool() -> BoxedStrategy<Val> {
 }
 
 fn doc_strategy() -> BoxedStrategy<Doc> {
-    let elem = prop_oneof![3 => Just(DocElem::U32), 2 => Just(DocElem::Str), 1 => Just(DocElem::OptU32)];
+    let elem = prop_oneof![3 => Just(DocElem::U32), 2 => Just(DocElem::Str), 1 => Just(DocElem::OptU32), 1 => Just(DocElem::Unit)];
     (elem, 0u64..6, 0u64..6, transport(), 0u8..3)
         .prop_flat_map(|(elem, c, r, tr, ws)| {
             let (c, r) = if c == 0 || r == 0 { (0, 0) } else { (c, r) };
@@ -553,12 +602,15 @@ fn doc_strategy() -> BoxedStrategy<Doc> {
                     }
                     10 => {
                         let (a, b, n): (u64, u64, usize) = [(1 << 63, 2, 0), (1 << 32, 1 << 32, 0), ((1 << 62) + 1, 4, 4), (1 << 63, 4, 0), ((1 << 63) + 1, 2, 2), (u64::MAX, u64::MAX, 1), (u64::MAX, 2, 0), (1 << 33, (1 << 31) + 1, 0)][rnd[0] as usize % 8];
+                        // half of the time an exact factorisation of 2^64 + k (every split of the bit lengths)
+                        let (a, b, n) = if rnd[2] % 2 == 0 { wrap_pair(rnd[0], rnd[3]) } else { (a, b, n) };
                         let (a, b) = if rnd[1] % 2 == 0 { (a, b) } else { (b, a) };
-                        let _ = n;
+                        let n0 = n;
                         let n = match a.checked_mul(b) {
                             Some(p) => (p % 7) as usize,
                             None => {
                                 let w = a.wrapping_mul(b);
+                                let _ = n0;
                                 if w < 64 { w as usize } else { (w % 5) as usize }
                             }
                         };
@@ -592,7 +644,7 @@ impl Prop for C19 {
     type Case = Doc;
     const ID: &'static str = "C19";
     fn rule() -> &'static str {
-        "documents generated from a grammar: a consistent base document (dims 0..6, data of the right length, element type u32 / String / Option<u32>) with 1-2 mutations from {dimension from the pool 0, small, 2^32, 2^63, 2^64-1, 2^62+1, negative, fractional, exponent, > u64, string, null, bool, array, object; data length +-; wrong element type; data not an array; field dropped; field duplicated (also a second different data); unknown keys; exactly one zero dimension with empty data; dimension pairs whose product wraps to exactly the data length; non-object top level}, fields reordered, 3 whitespace styles, 4 transports; plus an exhaustive list of every subset / order of the three fields with fixed values. Oracle: never panics; Ok(t) => C01 shape invariant and there is an occurrence of each field in the document that t's dimensions / cells equal exactly (hence an accepted document cannot have overflowing, mismatching or one-zero dimensions); non-object documents are never accepted, except that a three-element array is read as the positional form [num_cols, num_rows, data] and held to the same standard. Non-trivial = an object containing all three fields. Distinct = distinct case."
+        "documents generated from a grammar: a consistent base document (dims 0..6, data of the right length, element type u32 / String / Option<u32> / the zero-sized ()) with 1-2 mutations from {dimension from the pool 0, small, 2^32, 2^63, 2^64-1, 2^62+1, negative, fractional, exponent, > u64, string, null, bool, array, object; data length +-; wrong element type; data not an array; field dropped; field duplicated (also a second different data); unknown keys; exactly one zero dimension with empty data; dimension pairs whose product wraps to exactly the data length (fixed pairs and exact factorisations a*b = 2^64+k for k < 48 with every split of the bit lengths); non-object top level}, fields reordered, 3 whitespace styles, 4 transports; plus an exhaustive list of every subset / order of the three fields with fixed values. Oracle: never panics; Ok(t) => C01 shape invariant and there is an occurrence of each field in the document that t's dimensions / cells equal exactly (hence an accepted document cannot have overflowing, mismatching or one-zero dimensions); non-object documents are never accepted, except that a three-element array is read as the positional form [num_cols, num_rows, data] and held to the same standard. Non-trivial = an object containing all three fields. Distinct = distinct case."
     }
     fn bound(_t: Tier) -> String {
         "exhaustive part: all ordered selections (with duplication up to 4 fields) from {num_cols, num_rows, data, unknown} x 6 dimension / data variants x 4 transports".into()
@@ -611,6 +663,19 @@ impl Prop for C19 {
             (Val::I(-1), Val::U(2), Val::Arr(vec![])),
             (Val::U(1), Val::U(1), Val::Arr(vec![Val::S("x".into())])),
         ];
+        // zero-sized elements, and exact factorisations of 2^64 + k with k data cells
+        for tr in [Transport::Str, Transport::Slice, Transport::Reader, Transport::Value] {
+            for (c, r, n) in [(2u64, 2u64, 4usize), (0, 0, 0), (0, 3, 0), (1 << 63, 2, 0), (3, 1, 2)] {
+                emit(Doc { elem: DocElem::Unit, fields: Some(vec![("num_cols".into(), Val::U(c)), ("num_rows".into(), Val::U(r)), ("data".into(), Val::Arr(vec![Val::Null; n]))]), top: Val::Null, ws: 0, transport: tr });
+            }
+            for r0 in 0..48u16 {
+                for r1 in [0u16, 7, 20, 37] {
+                    let (a, b, k) = wrap_pair(r0, r1);
+                    emit(Doc { elem: DocElem::U32, fields: Some(vec![("num_cols".into(), Val::U(a)), ("num_rows".into(), Val::U(b)), ("data".into(), Val::Arr(vec![Val::U(1); k]))]), top: Val::Null, ws: 0, transport: tr });
+                    emit(Doc { elem: DocElem::U32, fields: Some(vec![("data".into(), Val::Arr(vec![Val::U(1); k])), ("num_rows".into(), Val::U(a)), ("num_cols".into(), Val::U(b))]), top: Val::Null, ws: 1, transport: tr });
+                }
+            }
+        }
         for tr in [Transport::Str, Transport::Slice, Transport::Reader, Transport::Value] {
             for (vc, vr, vd) in &variants {
                 let val_of = |n: &str| match n {
